@@ -265,6 +265,10 @@ RULE = ("expected lists [A,B], [A,A,B], [A,B,C], [A,A] x arrival multisets with 
         "lists must equal the list-buffer reference on some serial order of the same arrivals, no event may be in "
         "two lists; num_workers=1 runs bind the reference to the implementation; non-trivial = at least one "
         "schedule deviation")
+from vmc.tables import _ROUND6 as _R6  # noqa: E402
+
+RULE += _R6["C09"]
+
 
 
 def run(tier: str, seed: int) -> Any:
